@@ -8,30 +8,48 @@ SPEC = {"sort_groups_by_label": False, "poison": False}
 
 
 def check_case(drv, r, stats, asis=ASIS, spec=SPEC):
-    fails = []
     ds, cfg = r["ds"], r["meta"]["cfg"]
-    kind = "binary" if ds["target"] == "binary" else "continuous"
-    try:
-        disc, Xd, Xd_dev, labels = carvecase.base_discretization(ds, cfg)
-    except Exception as e:
-        stats["base_error"] += 1
-        return fails
     try:
         carver = fitgen.fit_carver(ds, cfg)
         err = None
     except Exception as e:
         carver, err = None, type(e).__name__
         stats["fit_errors"][err] = stats["fit_errors"].get(err, 0) + 1
+    if ds["target"] != "multiclass":
+        return check_features(drv, ds, cfg, carver, err, "", stats, asis, spec)
+    # MulticlassCarver: one-vs-rest, every class but the first (classes as strings, in string order); each class's features
+    # `<feature>_<class>` must be an optimal viable grouping for the indicator of that class
+    fails = []
+    ys = ds["y"].astype(str)
+    yd = None if ds["y_dev"] is None else ds["y_dev"].astype(str)
+    for c in sorted(ys.unique())[1:]:
+        ds_c = dict(ds, y=(ys == c).astype(int), y_dev=None if yd is None else (yd == c).astype(int), target="binary")
+        stats["multiclass_classes"] = stats.get("multiclass_classes", 0) + 1
+        fs = check_features(drv, ds_c, cfg, carver, err, "_" + c, stats, asis, spec)
+        for f in fs:
+            f["class"] = c
+        fails += fs
+    return fails
+
+
+def check_features(drv, ds, cfg, carver, err, suffix, stats, asis=ASIS, spec=SPEC):
+    fails = []
+    kind = "binary" if ds["target"] == "binary" else "continuous"
+    try:
+        disc, Xd, Xd_dev, labels = carvecase.base_discretization(ds, cfg)
+    except Exception as e:
+        stats["base_error"] += 1
+        return fails
     for f in disc.features:
         stats["features"] += 1
         labs = labels[f]
         if err is not None:
             impl = {"outcome": "error", "type": err}
-        elif f not in carver.features:
+        elif f + suffix not in carver.features:
             impl = {"outcome": "dropped"}
             stats["dropped"] += 1
         else:
-            g, problem = carvecase.impl_grouping(carver, f, Xd[f].fillna(carvecase.NAN) if False else Xd[f], ds["X"], labs)
+            g, problem = carvecase.impl_grouping(carver, f + suffix, Xd[f], ds["X"], labs)
             if problem:
                 fails.append({"kind": "property", "feature": f, **problem})
                 continue
@@ -93,6 +111,15 @@ def worker(args):
     try:
         for _ in range(n):
             r = gen(rng)
+            if rng.random() < 0.1:
+                # a MulticlassCarver: every one-vs-rest carving is held to the same standard
+                # (half of them with an ordinal feature and a dev sample: a feature dropped for one class and kept for the next)
+                d = fitgen.gen_dataset(rng, target="multiclass", kinds=rng.choice([["ord"], ["ord", "cat"], ["disc", "ord"]]), with_dev=True) \
+                    if rng.random() < 0.5 else fitgen.gen_dataset(rng, target="multiclass")
+                if d["ok_target"]:
+                    r = {"ds": d, "meta": {"what": "carver", "target": "multiclass", "cfg": fitgen.gen_config(rng, "multiclass"),
+                                           "kinds": d["kinds"], "n": len(d["X"]), "dev": d["X_dev"] is not None}}
+                    stats["multiclass"] = stats.get("multiclass", 0) + 1
             stats["cases"] += 1
             stats["with_dev"] += int(r["meta"]["dev"])
             fs = check_case(drv, r, stats)
